@@ -69,7 +69,7 @@ ARCH_LISTS = [["x86_64"], ["x86_64"], ["i686"], ["aarch64"], ["armv8l", "armv7l"
               ["i686", "x86_64"], ["armv6l"], ["X86_64"], ["aarch64", "x86_64"], ["mips", "s390x"]]
 GLIBC = [(2, 4), (2, 5), (2, 6), (2, 11), (2, 12), (2, 13), (2, 16), (2, 17), (2, 18), (2, 31), (2, 36), (2, 50), (2, 51),
          (2, 60), (3, 0), (3, 1), (3, 5), (4, 2), (2, 0), (2, 3), (1, 5), (0, 3)]
-EXE_KINDS = ["x86_64", "i686", "armhf", "armhf2", "armel", "arm-eabi4", "arm-be", "arm64as32", "aarch64", "s390x",
+EXE_KINDS = ["x86_64", "i686", "armhf", "armhf2", "armel", "arm-eabi4", "arm-eabi7", "arm-eabi0d", "arm-eabiff", "arm-eabi5-nofloat-bits", "arm-be", "arm64as32", "aarch64", "s390x",
              "i386-be", "x32"]
 GET_PLATFORMS = ["linux-x86_64", "linux-aarch64", "linux-armv7l", "linux-i686", "linux-ppc64le", "linux-mips", "linux-armv8l",
                  "macosx-10.9-x86_64", "win-amd64", "linux_x86_64", "linux", "linux-", "linux-s390x", "Linux-x86_64",
